@@ -15,7 +15,7 @@ RULE = ('String constants: each of the 256 byte values alone, ordered pairs (qui
         'spelled with \\xNN escapes, named escapes or raw text; string and character literals whose characters are all written raw (every control character except line breaks, U+0080-U+00FF, Unicode line/paragraph separators and spaces, BMP and astral boundaries, Hypothesis text) denoting their UTF-8 encoding; character literals for every value (raw where printable, '
         'named escape, \\xNN). Constant arrays of int/byte/bool/string, lengths 0..40, boundary element values, as const '
         'global, mutable global, const local, mutable local and call argument, several per program including '
-        'prefix/zero-padded (1-24 zeros)/all-zero/identical siblings. Oracles: (i) the emitted assembly assembles on the strict assembler; '
+        'prefix/zero-padded (1-24 zeros)/all-zero/identical siblings. Mixed programs: the same byte values as string content, char immediates and const byte[] elements of one program (all 256 values in groups of 16, the three quote characters alone and together; both source orders; one worker renders chars first, the other strings first). Oracles: (i) the emitted assembly assembles on the strict assembler; '
         '(ii) static: the const/state sections hold exactly length word + bytes per distinct string, and exactly the '
         'packed elements per array label; (iii) dynamic: the program prints .length, write() of the constant and every '
         'element by index (through a loop variable and through literal indices), all equal to the denoted bytes. Non-trivial: constants containing a byte outside [0x20,0x7e] or '
